@@ -56,18 +56,21 @@ theorem storage_query_never_panics (getPanics : Bool) (s : Helm.Storage.Objs) (q
   simp only [Helm.Storage.objStep]
   split <;> simp
 
-/-- `ConfigMaps.Get` returns an error on an undecodable record (no crash) ... -/
-theorem configmaps_get_never_panics (s : Helm.Storage.Objs) (k : String) :
+/-- `Get` returns an error on an undecodable record (no crash) on both object drivers ... -/
+theorem get_never_panics (s : Helm.Storage.Objs) (k : String) :
     (Helm.Storage.objStep false s (.get k)).2 ≠ .panic := by
   simp only [Helm.Storage.objStep]
   split
   · simp
   · split <;> simp
 
-/-- ... `Secrets.Get` does crash (known finding, shared with C10). -/
-theorem counterexample_secrets_get (k : String) (l : List (String × String)) :
-    (Helm.Storage.objStep true [(k, ⟨l, none⟩)] (.get k)).2 = .panic := by
-  simp [Helm.Storage.objStep, Helm.Storage.Objs.get?]
+/-- ... and so does `Delete` (which reads the record first). -/
+theorem delete_never_panics (s : Helm.Storage.Objs) (k : String) :
+    (Helm.Storage.objStep false s (.delete k)).2 ≠ .panic := by
+  simp only [Helm.Storage.objStep]
+  split
+  · simp
+  · split <;> simp
 
 /-! ## repository index -/
 
